@@ -47,6 +47,9 @@ type TreeSpec struct {
 	Start    uint64        `json:"sync_start_block"`
 	Branches []BranchSpec  `json:"branches"`
 	Events   []PlacedEvent `json:"events"`
+	// Lenient: the node answers eth_getLogs with fromBlock > toBlock with an empty
+	// result (geth answers with an error); the syncers must be correct against both.
+	Lenient bool `json:"node_answers_inverted_log_range_with_nothing,omitempty"`
 }
 
 type placed struct {
@@ -155,6 +158,7 @@ func mustTree(spec TreeSpec, kind syncx.Kind) *tree {
 func buildTree(spec TreeSpec, kind syncx.Kind) (*tree, error) {
 	t := &tree{spec: spec, kind: kind, ids: map[string]map[int]fakechain.BlockID{}, events: map[fakechain.BlockID][]placed{}, label: map[fakechain.BlockID]string{}}
 	t.chain = fakechain.New(syncx.GenesisTime)
+	t.chain.LenientRanges = spec.Lenient
 	// logs per (branch, height)
 	type at struct {
 		b string
